@@ -19,6 +19,14 @@ type decoder interface {
 
 var defaultParser = url.NewParser()
 
+// DelegateAvailable tells whether the implementation still exposes the exported ToASCII /
+// DecodePercentEncoded methods the harness binds to. If not, model-based checks are *broken* (exit 2), never red.
+var DelegateAvailable = func() bool {
+	_, a := defaultParser.(toASCIIer)
+	_, b := defaultParser.(decoder)
+	return a && b
+}()
+
 // ToASCII is the delegated UTS #46 step (property C01: "taken as given").
 func ToASCII(domain string) (res string, ok bool) {
 	defer func() {
@@ -26,7 +34,11 @@ func ToASCII(domain string) (res string, ok bool) {
 			res, ok = "", false
 		}
 	}()
-	a, err := defaultParser.(toASCIIer).ToASCII(domain, false)
+	t, has := defaultParser.(toASCIIer)
+	if !has {
+		return "", false
+	}
+	a, err := t.ToASCII(domain, false)
 	if err != nil {
 		return "", false
 	}
